@@ -3,8 +3,14 @@
     list [gs] ([None] = "invalid escape sequence"); [search r p] = r.MatchString(p), an executable matcher;
     [Search r p] = its declarative meaning (r matches some substring of p, with ^ $ (?s:) | () * as in RE2);
     [glob_match g p] = the recursive matcher of the property statement; [ascii s] = every byte < 128
-    (bytes = characters; RE2 works on UTF-8 characters, so the model speaks for Go on ASCII text). *)
-From Dawn Require Import Glob.Model Glob.Proofs.
+    (bytes = characters; RE2 works on UTF-8 characters, so the model speaks for Go on ASCII text).
+    Glob/Walk.v: a directory is [Dir files subs]; [load_project ignore t] = the packages Project.load loads from the
+    tree [t] under the ignore list (the recursion of loadPackage); [glob_builtin inc exc t] / [os_glob inc exc t] =
+    what glob() / os.glob() return when called from a module whose directory is [t] (the WalkDir callbacks);
+    [packages [] [] t] = every package of the tree paired with the directories on the way to it (the root, "",
+    and itself included); [files_below [] [] t] = every regular file below [t] at any depth, paired with the
+    directories on the way to it; [matches_some gs p] = some pattern of [gs] matches the whole of [p]. *)
+From Dawn Require Import Glob.Model Glob.Proofs Glob.Walk Glob.WalkProofs.
 
 (** The executable regexp matcher decides the declarative semantics, for every regexp of the fragment. *)
 Theorem search_decides_MatchString : forall r t, search r t = true <-> Search r t.
@@ -61,6 +67,52 @@ Theorem glob_select_fails_iff : forall inc exc paths,
 Proof. exact glob_select_fails. Qed.
 Print Assumptions glob_select_fails_iff.
 
+(** ** The walks that apply the sets: which paths are tested at all. *)
+
+(** The ignore list selects exactly the documented packages: a package of the tree is loaded iff no directory on
+    the way to it -- the project root, whose relative path is empty, and the package itself included -- is matched
+    by some pattern of the list. *)
+Theorem ignore_list_selects_packages : forall ignore t l,
+  Forall ascii ignore -> (forall p way, In (p, way) (packages [] [] t) -> Forall ascii way) ->
+  load_project ignore t = Some l ->
+  forall p, In p l <->
+            exists way, In (p, way) (packages [] [] t) /\ forall d, In d way -> matches_some ignore d = false.
+Proof. intros ignore t l _ _. exact (load_project_spec ignore t l). Qed.
+Print Assumptions ignore_list_selects_packages.
+
+(** In particular the empty run is a run: a list with a pattern that matches the empty path (one star, two stars,
+    the empty pattern, ...) ignores the root package and with it the whole project. *)
+Theorem ignore_matching_empty_path_ignores_everything : forall ignore t l,
+  load_project ignore t = Some l -> matches_some ignore [] = true -> l = [].
+Proof. exact load_project_root_ignored. Qed.
+Print Assumptions ignore_matching_empty_path_ignores_everything.
+
+Theorem load_project_fails_iff : forall ignore t,
+  load_project ignore t = None <-> existsb (fun g => negb (well_escaped g)) ignore = true.
+Proof. exact load_project_fails. Qed.
+Print Assumptions load_project_fails_iff.
+
+(** glob(include, exclude) called from a module returns exactly the regular files below the module's directory, at
+    every depth and whatever the shape of the patterns, whose relative path matches some include and no exclude
+    pattern; the only files never considered are those below <module dir>/.dawn/build. *)
+Theorem glob_walk_selects_exactly : forall inc exc t l,
+  Forall ascii inc -> Forall ascii exc -> (forall p way, In (p, way) (files_below [] [] t) -> ascii p) ->
+  glob_builtin inc exc t = Some l ->
+  forall p, p <> [] ->
+    (In p l <-> (exists way, In (p, way) (files_below [] [] t) /\ ~ In dawn_build way)
+                /\ matches_some inc p = true /\ matches_some exc p = false).
+Proof. intros inc exc t l _ _ _. exact (glob_builtin_spec inc exc t l). Qed.
+Print Assumptions glob_walk_selects_exactly.
+
+(** os.glob: the same over every file and directory strictly below the current directory ([walk_all] lists them). *)
+Theorem os_glob_selects_exactly : forall inc exc t l,
+  Forall ascii inc -> Forall ascii exc -> Forall ascii (walk_all [] t) ->
+  os_glob inc exc t = Some l ->
+  forall p, p <> [] ->
+    (In p l <-> In p (walk_all [] t) /\ matches_some inc p = true /\ matches_some exc p = false).
+Proof. intros inc exc t l _ _ _. exact (os_glob_spec inc exc t l). Qed.
+Print Assumptions os_glob_selects_exactly.
+
 (** The hypotheses are satisfiable; the two-pattern case that the old anchoring got wrong. *)
 Example two_patterns :
   let gs := [[42; 46; 103; 111]; [42; 46; 109; 100]] in            (* "*.go", "*.md" *)
@@ -70,4 +122,16 @@ Example two_patterns :
   /\ option_map (fun r => search r [120; 46; 103; 111]) (compile gs) = Some true             (* x.go *)
   /\ option_map (fun r => search r [120; 46; 103; 111; 46; 98]) (compile gs) = Some false    (* x.go.b *)
   /\ option_map (fun r => search r [100; 47; 120; 46; 109; 100]) (compile gs) = Some false.  (* d/x.md *)
+Proof. vm_compute. auto. Qed.
+
+(** A tree with packages "", a, a/b and files x, a/x:  ignore=["a/*"] keeps "" and a;  ignore=["*"] matches the
+    empty path and keeps nothing;  glob(["a?x"]) from the root selects a/x (? stands for the separator) and
+    glob(["*x"]) does not. *)
+Example walks :
+  let bd := build_dawn in
+  let t := Dir [bd; [120]] [([97], Dir [bd; [120]] [([98], Dir [bd] [])])] in
+  load_project [[97; 47; 42]] t = Some [[]; [97]]
+  /\ load_project [[97; 47; 42]; [42]] t = Some []
+  /\ glob_builtin [[97; 63; 120]] [] t = Some [[97; 47; 120]]
+  /\ glob_builtin [[42; 120]] [] t = Some [[120]].
 Proof. vm_compute. auto. Qed.
